@@ -78,9 +78,14 @@ def norm(node):
     return ast.dump(_Norm().visit(node))
 
 
-def render(src):
+def render(src, inline=True):
     e = ast.parse(src, mode="eval").body
-    return "".join(gettext(colorize_inline_pyval(e).to_node()))
+    rep = colorize_inline_pyval(e) if inline else colorize_pyval(e, linelen=0, maxlines=0, linebreakok=True)
+    COMPLETE[0] = rep.is_complete
+    return "".join(gettext(rep.to_node()))
+
+
+COMPLETE = [True]
 
 
 class _DropOneTuples(ast.NodeTransformer):
@@ -95,20 +100,26 @@ def finding_key(pk, ck, want, got):
     g1 = ast.dump(_DropOneTuples().visit(_Norm().visit(ast.parse(ast.unparse(got), mode="eval").body)))
     if w1 == g1 and "tuple1" in (pk, ck):
         return "C15:one-element-tuple-shown-without-comma"
-    if pk == "subslice" and ck in ("tuple2", "tuple1"):
+    if any(isinstance(n, ast.Slice) and any(isinstance(b, ast.Tuple) for b in (n.lower, n.upper, n.step)) for n in ast.walk(want)):
         return "C15:slice-bound-tuple-loses-parentheses"
     return None
 
 
-def check_expr(psrc, pk, ck, extra=""):
+def check_expr(psrc, pk, ck, extra="", inline=True):
     try:
         want = ast.parse(psrc, mode="eval").body
     except SyntaxError:
         return True
     try:
-        out = render(psrc)
+        out = render(psrc, inline)
     except Exception as e:
         note(why="colorizer raised", src=psrc, exc=repr(e))
+        return False
+    if not COMPLETE[0]:
+        # cut (inline values cannot hold a line break): must be visibly marked, nothing more is claimed here (K15c)
+        if out.endswith("..."):
+            return True
+        note(why="incomplete rendering not marked", src=psrc, shown=out)
         return False
     try:
         got = ast.parse(out, mode="eval").body
@@ -147,6 +158,37 @@ def h_expr_depth2(ck: int, pos: int) -> bool:
         if child not in psrc:
             return True
         ok = check_expr(psrc, pk, ck)
+    return done(ok)
+
+
+LEAVES = ["'usage: prog [options]\\n    --help   show this help'", "'a\\nb'", "1000000", "1e+100", "16", "b'\\x00\\''", "...", "None", "'it\\'s'", "-1", "1.5j",
+          "'tab\\there and a long tail of text to pass twenty characters'", "(1, 'x\\ny')"]
+NLEAF = len(LEAVES)
+
+
+@harness(
+    parts=lambda: list(range(NK)), timeout=(200, 1200), cls="E", tracing="concrete-after-choice", twin="first",
+    code=["PyvalColorizer._colorize_ast_constant/_colorize_str", "PyvalColorizer._colorize_ast_generic (astor fallback)", "PyvalColorizer._colorize_ast*", "colorize_inline_pyval / colorize_pyval"],
+    bounds={"quick": "every parent form (47) x operand position x 13 literal leaves (long and short multi-line strings, string with quote, with tab, big int, float with exponent, bytes with NUL and quote, Ellipsis, None, negative number, imaginary, tuple holding a multi-line string), inline and multi-line rendering",
+            "thorough": "same"},
+    outside="f-strings; leaves outside the table",
+)
+def h_expr_leaves(leaf: int, pos: int, inline: bool) -> bool:
+    """
+    pre: 0 <= leaf < NLEAF and 0 <= pos <= 2
+    post: _
+    """
+    pk = KINDS[PART if PART is not None else 0]
+    leaf = pick(leaf, 0, NLEAF - 1)
+    pos = pick(pos, 0, 2)
+    inline = pickb(inline)
+    with NoTracing():
+        args = ["x", "y", "z"]
+        args[pos] = LEAVES[leaf]
+        psrc = forms(*args)[pk]
+        if LEAVES[leaf] not in psrc:
+            return True
+        ok = check_expr(psrc, pk, "leaf", inline=inline)
     return done(ok)
 
 
